@@ -10,5 +10,6 @@ e = vlib.run_goextract()
 print(e or 'goextract ok')
 "
 cp build/funchash.json funchash.base.json
+cp build/funclocals.json funclocals.base.json
 mkdir -p coq/GeneratedBase && rm -f coq/GeneratedBase/*.v && cp coq/Generated/*.v coq/GeneratedBase/
 echo "funchash.base.json updated ($(python3 -c "import json;print(len(json.load(open('funchash.base.json'))))") entries)"
